@@ -738,4 +738,154 @@ theorem rightSpec_empty_left (wl : Nat) (R : List Row) (c : Cond) :
   | nil => rfl
   | cons r rs ih => simp only [List.flatMap_cons, List.map_cons, ih, List.singleton_append]
 
+/-! ## field resolution -/
+
+theorem fieldIndexGo_sound (view : Option String) (name : String) (fs : List HField) (i : Nat) (idx : Option Nat) (k : Nat)
+    (h : fieldIndexGo view name fs i idx = .ok k) :
+    idx = some k ∨ ∃ j f, fs[j]? = some f ∧ k = i + j ∧ fieldMatches view name f = true := by
+  induction fs generalizing i idx with
+  | nil =>
+    cases idx with
+    | none => simp [fieldIndexGo] at h
+    | some m => simp only [fieldIndexGo, Except.ok.injEq] at h; exact Or.inl (by rw [h])
+  | cons f fs ih =>
+    simp only [fieldIndexGo] at h
+    by_cases hm : fieldMatches view name f = true
+    · simp only [hm, if_true] at h
+      by_cases hj : (view.isNone && f.isJoin) = true
+      · simp only [hj, if_true, Except.ok.injEq] at h
+        exact Or.inr ⟨0, f, rfl, by omega, hm⟩
+      · simp only [hj, Bool.false_eq_true, if_false] at h
+        cases idx with
+        | some m => simp at h
+        | none =>
+          simp only at h
+          rcases ih (i + 1) (some i) h with h1 | ⟨j, g, hg, hk, hmg⟩
+          · simp only [Option.some.injEq] at h1
+            exact Or.inr ⟨0, f, rfl, by omega, hm⟩
+          · exact Or.inr ⟨j + 1, g, by simpa using hg, by omega, hmg⟩
+    · simp only [hm, Bool.false_eq_true, if_false] at h
+      rcases ih (i + 1) idx h with h1 | ⟨j, g, hg, hk, hmg⟩
+      · exact Or.inl h1
+      · exact Or.inr ⟨j + 1, g, by simpa using hg, by omega, hmg⟩
+
+/-- two candidates and no join column among the fields (or a qualified reference): AMBIGUOUS -/
+theorem fieldIndexGo_ambiguous (view : Option String) (name : String) (fs : List HField) (i : Nat) (idx : Option Nat)
+    (hnj : view.isSome = true ∨ ∀ f, f ∈ fs → f.isJoin = false)
+    (hc : 2 ≤ fs.countP (fieldMatches view name) + (if idx.isSome then 1 else 0)) :
+    fieldIndexGo view name fs i idx = .error .ambiguous := by
+  induction fs generalizing i idx with
+  | nil =>
+    simp only [List.countP_nil, Nat.zero_add] at hc
+    split at hc <;> omega
+  | cons f fs ih =>
+    have hnj' : view.isSome = true ∨ ∀ g, g ∈ fs → g.isJoin = false := by
+      rcases hnj with h | h
+      · exact Or.inl h
+      · exact Or.inr (fun g hg => h g (List.mem_cons_of_mem _ hg))
+    have hj : (view.isNone && f.isJoin) = false := by
+      rcases hnj with h | h
+      · cases view with
+        | none => simp at h
+        | some _ => rfl
+      · simp [h f (List.mem_cons_self ..)]
+    simp only [fieldIndexGo]
+    by_cases hm : fieldMatches view name f = true
+    · simp only [hm, if_true, hj, Bool.false_eq_true, if_false]
+      cases idx with
+      | some m => rfl
+      | none =>
+        simp only
+        apply ih (i + 1) (some i) hnj'
+        simp only [List.countP_cons, hm, if_true, Option.isSome_none, Bool.false_eq_true, if_false] at hc
+        simp only [Option.isSome_some, if_true]
+        omega
+    · simp only [hm, Bool.false_eq_true, if_false]
+      apply ih (i + 1) idx hnj'
+      simpa [List.countP_cons, hm] using hc
+
+/-- an unqualified reference stops at the first join column of that name when nothing before it matches -/
+theorem fieldIndexGo_join_wins (name : String) (pre : List HField) (f : HField) (post : List HField) (i : Nat)
+    (idx : Option Nat) (hpre : ∀ g, g ∈ pre → fieldMatches none name g = false)
+    (hf : fieldMatches none name f = true) (hj : f.isJoin = true) :
+    fieldIndexGo none name (pre ++ f :: post) i idx = .ok (i + pre.length) := by
+  induction pre generalizing i with
+  | nil => simp [fieldIndexGo, hf, hj]
+  | cons g gs ih =>
+    have hg := hpre g (List.mem_cons_self ..)
+    simp only [List.cons_append, fieldIndexGo, hg, Bool.false_eq_true, if_false]
+    rw [ih (i + 1) (fun x hx => hpre x (List.mem_cons_of_mem _ hx))]
+    simp only [List.length_cons]
+    congr 1
+    omega
+
+theorem fixHeader_isJoin (labels : List String) (h : List HField) (f : HField) (hf : f ∈ fixHeader labels h) :
+    f.isJoin = false := by
+  unfold fixHeader at hf
+  induction h generalizing labels with
+  | nil => simp at hf
+  | cons x xs ih =>
+    cases labels with
+    | nil => simp at hf
+    | cons l ls =>
+      simp only [List.zipWith_cons_cons, List.mem_cons] at hf
+      rcases hf with rfl | hf
+      · rfl
+      · exact ih ls hf
+
+/-! ## lazy evaluation agrees with the total one where no reference is open -/
+
+theorem evalExprE_pure (lw : Nat) (r : Row) (e : Expr) (h : exprPure e = true) :
+    evalExprE lw r e = .ok (evalExpr lw r e) := by
+  cases e <;> simp_all [exprPure, evalExprE]
+
+theorem evalBetween_low_false (neg : Bool) (v lo hi hi' : Profile) (h : opGe v lo = .F) :
+    evalBetween neg v lo hi = evalBetween neg v lo hi' := by
+  unfold evalBetween
+  simp [h]
+
+theorem evalCondE_pure (lw : Nat) (r : Row) (c : CondE) (h : condPure c = true) :
+    evalCondE lw r c = .ok (evalCond lw r c) := by
+  induction c with
+  | cmp op a b =>
+    simp only [condPure, Bool.and_eq_true] at h
+    simp only [evalCondE, evalCond, evalExprE_pure lw r a h.1, evalExprE_pure lw r b h.2]
+    by_cases hn : (evalExpr lw r a).isNull = true
+    · simp [hn, evalComparison]
+    · simp [hn]
+  | and a b iha ihb =>
+    simp only [condPure, Bool.and_eq_true] at h
+    simp only [evalCondE, evalCond, iha h.1, ihb h.2]
+    by_cases hf : (ternP (evalCond lw r a)).tern = .F
+    · simp [hf, evalAnd]
+    · simp [hf]
+  | or a b iha ihb =>
+    simp only [condPure, Bool.and_eq_true] at h
+    simp only [evalCondE, evalCond, iha h.1, ihb h.2]
+    by_cases hf : (ternP (evalCond lw r a)).tern = .T
+    · simp [hf, evalOr]
+    · simp [hf]
+  | not a iha =>
+    simp only [condPure] at h
+    simp only [evalCondE, evalCond, iha h]
+  | isNull neg a =>
+    simp only [condPure] at h
+    simp only [evalCondE, evalCond, evalExprE_pure lw r a h]
+  | between neg a lo hi =>
+    simp only [condPure, Bool.and_eq_true] at h
+    simp only [evalCondE, evalCond, evalExprE_pure lw r a h.1.1, evalExprE_pure lw r lo h.1.2, evalExprE_pure lw r hi h.2]
+    by_cases hn : (evalExpr lw r a).isNull = true
+    · simp [hn, evalBetween]
+    · simp only [hn, Bool.false_eq_true, if_false]
+      by_cases hl : opGe (evalExpr lw r a) (evalExpr lw r lo) = .F
+      · simp only [hl, if_true]
+        rw [evalBetween_low_false neg _ _ nullP (evalExpr lw r hi) hl]
+      · simp [hl]
+  | inList neg a l =>
+    simp only [condPure] at h
+    simp only [evalCondE, evalCond, evalExprE_pure lw r a h]
+  | truth a =>
+    simp only [condPure] at h
+    simp only [evalCondE, evalCond, evalExprE_pure lw r a h]
+
 end Csvq.Rel
